@@ -527,6 +527,19 @@ func branchCheckHelper(f *ssa.Function) (*ssa.Call, *ssa.Function) {
 		if !ok || g == nil || g == f || g.Pkg != f.Pkg || len(g.Blocks) == 0 || g.Object() == nil || g.Object().Exported() || errResultIndex(g) < 0 {
 			continue
 		}
+		// a function that also inserts into the DAG is not a validating helper but the moved body of newVersion:
+		// that shape stays undecided (newVersionIntact)
+		inserts := false
+		for _, b := range g.Blocks {
+			for _, in := range b.Instrs {
+				if mu, ok := in.(*ssa.MapUpdate); ok && isFieldLoad(mu.Map, "dagT", "nodes") {
+					inserts = true
+				}
+			}
+		}
+		if inserts {
+			continue
+		}
 		for _, b := range g.Blocks {
 			if _, set, _ := innermostLoop(g, b); set == nil {
 				continue
